@@ -368,6 +368,7 @@ func (e *env) request(world *World, docBytes []byte, q ReqSpec, again bool) (han
 	}
 	var calls []authCall
 	authBodyBad := ""
+	authTruncated := ""
 	curVal := 0
 	auth := func(_ context.Context, in *openapi3filter.AuthenticationInput) error {
 		prev := e.party
@@ -377,17 +378,28 @@ func (e *env) request(world *World, docBytes []byte, q ReqSpec, again bool) (han
 		calls = append(calls, authCall{in.SecuritySchemeName, strings.Join(in.Scopes, ",")})
 		r := in.RequestValidationInput.Request
 		outcome := acceptsScoped(mode, in.Scopes)
+		var readErr error
 		readAll := func() []byte {
 			if r.Body == nil {
 				return nil
 			}
-			data, _, _ := simenv.ReadAllLimited(r.Body, 97, 1<<14+8*len(orig))
+			data, _, err := simenv.ReadAllLimited(r.Body, 97, 1<<14+8*len(orig))
+			readErr = err
 			return data
 		}
+		faultBefore := st != nil && st.FaultFired // the stream had already failed when this callback was consulted
 		switch {
 		case strings.HasPrefix(mode, "read"), mode == "close_ok", mode == "sig":
 			data := readAll()
 			res.Probe("auth-read-all")
+			if faultBefore && r.Body != nil && readErr == nil && len(data) < len(orig) {
+				// whatever the verdict: after a failed read the callback may find the error again, never a
+				// shorter body that ends as if it were complete
+				authTruncated = fmt.Sprintf("after the stream failed with %q, the callback for %q was handed a body of %d of %d bytes that ends with a clean EOF", q.Chunk.FaultKind, in.SecuritySchemeName, len(data), len(orig))
+				res.Probe("auth-after-fault-truncated")
+			} else if faultBefore {
+				res.Probe("auth-after-fault")
+			}
 			if st != nil && !st.FaultFired && curVal == 0 && !bytes.Equal(data, orig) {
 				authBodyBad = fmt.Sprintf("callback for %q read %d of %d body bytes", in.SecuritySchemeName, len(data), len(orig))
 				if mode == "sig" {
@@ -455,6 +467,9 @@ func (e *env) request(world *World, docBytes []byte, q ReqSpec, again bool) (han
 	}
 
 	// ---- R3 (C07 clause): verdict independent of delivery and callback reading
+	if authTruncated != "" {
+		violate("C07", "auth-body", "auth-body-truncated-silently", authTruncated)
+	}
 	if faultSeen {
 		// the library observed a stream error (every reader of the original stream is the library): it must not accept
 		for i := range s.Vals {
@@ -466,7 +481,10 @@ func (e *env) request(world *World, docBytes []byte, q ReqSpec, again bool) (han
 			}
 		}
 	} else {
-		if (verdicts[0] == nil) != (nverr == nil) {
+		if st != nil && st.CloseErrs > 0 {
+			// every byte was delivered; whether an error from Close may turn into a rejection is nobody's promise
+			res.Fault("reqbody_close_err")
+		} else if (verdicts[0] == nil) != (nverr == nil) {
 			violate("C07", "verdict", fmt.Sprintf("verdict:%v-vs-neutral-%v", verdicts[0] == nil, nverr == nil),
 				fmt.Sprintf("validation #1 says %v; the same request as one in-memory chunk with a non-reading callback says %v (chunk plan %+v, GetBody=%q, ContentLength unknown=%v, auth=%v)", verdicts[0], nverr, q.Chunk, q.GetBody, q.CLUnknown, s.Auth))
 		} else if got, want := parts(verdicts[0]), parts(nverr); !reflect.DeepEqual(got, want) {
@@ -525,7 +543,19 @@ func (e *env) request(world *World, docBytes []byte, q ReqSpec, again bool) (han
 		}
 		if faultSeen {
 			res.Probe("fault-run")
-			return // R1/R2 are not asserted for bytes the stream never delivered
+			// R1/R2 are not asserted for bytes the stream never delivered. One thing is: an accepted request
+			// whose forwarded body ends with a clean EOF before the last byte sent hands the next handler wrong
+			// data (the stream's error may surface again, or the bytes; not a shorter body passed off as whole)
+			accepted := true
+			for _, v := range verdicts {
+				if v != nil {
+					accepted = false
+				}
+			}
+			if accepted && req.Body != nil && finalErr == nil && len(final) < len(orig) && !(q.BodyMode == "nil" || q.BodyMode == "nobody") {
+				violate("C13", "R1-readable", "silently-truncated-body", fmt.Sprintf("the stream failed with %q after %d bytes; the request was accepted and the next handler reads %d of %d bytes followed by a clean EOF (ContentLength %d)", q.Chunk.FaultKind, q.Chunk.FaultAt, len(final), len(orig), req.ContentLength))
+			}
+			return
 		}
 
 		// ---- R1 (C13): the body is still readable in full -----------------------
@@ -1045,7 +1075,11 @@ func (e *env) response(world *World, docBytes []byte, p RespSpec, again bool) (r
 		}
 		return
 	}
-	if (verr == nil) != (nverr == nil) {
+	if st.CloseErrs > 0 {
+		// every byte was delivered; whether an error from Close may turn into a rejection is not C08's
+		// business, that the body is there afterwards is
+		res.Fault("respbody_close_err")
+	} else if (verr == nil) != (nverr == nil) {
 		violate("verdict", "verdict-depends-on-delivery", fmt.Sprintf("streamed: %v; same bytes in memory: %v (chunk plan %+v)", verr, nverr, p.Chunk))
 	}
 	// the body stays readable afterwards, on every return path
